@@ -106,7 +106,7 @@ def Kind.default : Kind → Val
 
 structure Slot where
   val : Val                      -- value of a plain option
-  log : List (Bytes × Val) := [] -- wildcard option: (body, value) of every assignment, oldest first
+  log : List (Bytes × Val) := [] -- wildcard option: (body, value) of every assignment, newest first
   wcKey : Bytes := []            -- `wc_key_last_`
   wcBody : Bytes := []           -- `wc_body_last_`
   deriving DecidableEq, Repr
@@ -118,8 +118,8 @@ inductive Err
 
 structure St where
   slots : List Slot
-  errs : List Err := []                   -- ReportError calls, in order (`has_errors_` = non-empty)
-  echo : List (Bytes × Option Val) := []  -- Print calls of ParseOptionString: echoed name, value (none for flags)
+  errs : List Err := []                   -- ReportError calls, newest first (`has_errors_` = non-empty)
+  echo : List (Bytes × Option Val) := []  -- Print calls of ParseOptionString, newest first: echoed name, value (none for flags)
   deriving DecidableEq, Repr
 
 def St.slot (st : St) (i : Nat) : Slot := st.slots.getD i { val := .flag false }
@@ -130,14 +130,14 @@ def St.modify (st : St) (i : Nat) (f : Slot → Slot) : St :=
 /-- what the getter returns: for a wildcard option the last value recorded for the current body. -/
 def getValue (d : OptDecl) (sl : Slot) : Val :=
   if d.isWildcard then
-    match sl.log.reverse.find? (fun e => e.1 == sl.wcBody) with
+    match sl.log.find? (fun e => e.1 == sl.wcBody) with
     | some e => e.2
     | none => d.kind.default
   else sl.val
 
 /-- `SetValue` through the option's setter. -/
 def setValue (d : OptDecl) (v : Val) (sl : Slot) : Slot :=
-  if d.isWildcard then { sl with log := sl.log ++ [(sl.wcBody, v)] } else { sl with val := v }
+  if d.isWildcard then { sl with log := (sl.wcBody, v) :: sl.log } else { sl with val := v }
 
 /-- `echo()`: the name, or head ++ last body ++ tail of the name pattern for a wildcard option. -/
 def echoName (d : OptDecl) (sl : Slot) : Bytes :=
@@ -147,7 +147,7 @@ def doEcho (noEcho : Bool) (d : OptDecl) (st : St) : St :=
   if noEcho then st
   else
     let sl := st.slot d.id
-    { st with echo := st.echo ++ [(echoName d sl, if d.kind == .flag then none else some (getValue d sl))] }
+    { st with echo := (echoName d sl, if d.kind == .flag then none else some (getValue d sl)) :: st.echo }
 
 /-! ## lookup -/
 
@@ -201,7 +201,7 @@ def intChkOk : IntChk → Int → Bool
   | .bool01, v => decide (v = 0 ∨ v = 1)
 
 def reportError (cfg : Cfg) (e : Err) (s : Bytes) (st : St) : Step :=
-  let st' := { st with errs := st.errs ++ [e] }
+  let st' := { st with errs := e :: st.errs }
   if cfg.throwing then .stop .threwError st' else .cont s st'
 
 /-- `opt->Parse(s, flags & FROM_COMMAND_LINE)` followed by the echo. -/
